@@ -1,3 +1,173 @@
 import Abverif.Model.WsSpec
+import Abverif.Proofs.Lemmas.WsFrame
+/-
+C17 — timer theorems on the model's virtual clock (time unit 2^-20 s; `sec` units per second).
+-/
 namespace Abverif.Ws
+
+/-! ### the batched timer: `deadline = ⌊now + delay⌋` seconds -/
+
+/-- never late: the batched deadline is at or before the nominal one -/
+theorem batched_le (now delay : Nat) : batched now delay ≤ now + delay := by
+  unfold batched sec; omega
+
+/-- at most one granule (one second) early -/
+theorem batched_gt (now delay : Nat) : now + delay < batched now delay + sec := by
+  unfold batched sec; omega
+
+/-- hence a reaction that arrives at least one second before the nominal deadline arrives before the real one -/
+theorem responsive_before_deadline (now delay t : Nat) (h : t + sec ≤ now + delay) : t < batched now delay := by
+  have := batched_gt now delay; omega
+
+/-- on a whole second with a whole-second timeout the deadline is exact -/
+theorem batched_exact (a b : Nat) : batched (a * sec) (b * sec) = (a + b) * sec := by
+  unfold batched sec; omega
+
+/-! ### what each timer callback does -/
+
+/-- the closing-handshake timer drops the TCP connection (abort) and marks the close unclean with its own reason,
+whenever the connection is not yet closed -/
+theorem fire_closeHs_drops (s : S) (h : s.st ≠ .closed) :
+    (fire s .closeHs).st = .closed ∧ (fire s .closeHs).notClean = some .closeTimeout ∧
+    (fire s .closeHs).wasClean = false ∧
+    (fire s .closeHs).log = s.log ++ [.closedResolved, .closeConn true] := by
+  simp [fire, dropConnection, h, S.emit]
+
+theorem fire_serverDrop_drops (s : S) (h : s.st ≠ .closed) :
+    (fire s .serverDrop).st = .closed ∧ (fire s .serverDrop).notClean = some .serverDropTimeout ∧
+    (fire s .serverDrop).wasClean = false ∧
+    (fire s .serverDrop).log = s.log ++ [.closedResolved, .closeConn true] := by
+  simp [fire, dropConnection, h, S.emit]
+
+theorem fire_pingTimeout_drops (s : S) (h : s.st ≠ .closed) :
+    (fire s .pingTimeout).st = .closed ∧ (fire s .pingTimeout).notClean = some .pingTimeout ∧
+    (fire s .pingTimeout).wasClean = false ∧
+    (fire s .pingTimeout).log = s.log ++ [.closedResolved, .closeConn true] := by
+  simp [fire, dropConnection, h, S.emit]
+
+theorem fire_openHs_drops (s : S) (h : s.st = .connecting) :
+    (fire s .openHs).st = .closed ∧ (fire s .openHs).notClean = some .openTimeout ∧
+    (fire s .openHs).log = s.log ++ [.closedResolved, .closeConn true] := by
+  simp [fire, dropConnection, h, S.emit]
+
+/-- the opening-handshake timer is inert once the handshake is done -/
+theorem fire_openHs_inert (s : S) (h : s.st ≠ .connecting) :
+    (fire s .openHs).log = s.log ∧ (fire s .openHs).st = s.st := by
+  simp [fire, h]
+
+/-! ### no timer has any effect after the connection is closed -/
+
+/-- every timer callback leaves the log, the state and the close bookkeeping of a CLOSED connection untouched -/
+theorem timers_inert_after_close (s : S) (k : TK) (h : s.st = .closed) :
+    (fire s k).log = s.log ∧ (fire s k).st = .closed ∧ (fire s k).wasClean = s.wasClean ∧
+    (fire s k).notClean = s.notClean ∧ (fire s k).remoteCloseCode = s.remoteCloseCode := by
+  cases k <;> simp [fire, h, dropConnection, sendAutoPing, sendPing, sendTick, S.timer]
+  all_goals (repeat' split) <;> simp_all [S.emit, S.timer]
+
+end Abverif.Ws
+
+namespace Abverif.Ws
+
+/-! ### deadlines: an armed timer whose deadline the clock has passed has fired
+
+`Quiescent target s`: no timer of `s` is due at `target` — what `advanceTo target` guarantees when it returns
+through one of its regular exits (see `advanceTo_quiescent_or_stuck`). -/
+
+def Quiescent (target : Nat) (s : S) : Prop := ∀ t ∈ s.timers, target < t.2.1
+
+theorem fire_closed (s : S) (k : TK) (h : s.st = .closed) : (fire s k).st = .closed :=
+  (timers_inert_after_close s k h).2.1
+
+theorem sendAutoPing_tCloseHs (s : S) : (sendAutoPing s).tCloseHs = s.tCloseHs := by
+  unfold sendAutoPing
+  dsimp only
+  split
+  · simp only [S.timer]
+    rw [(sendPing_SendEq _ _).tCloseHs]
+  · rw [(sendPing_SendEq _ _).tCloseHs]
+
+theorem sendAutoPing_st (s : S) : (sendAutoPing s).st = s.st := by
+  unfold sendAutoPing
+  dsimp only
+  split
+  · simp only [S.timer]
+    rw [(sendPing_SendEq _ _).st]
+  · rw [(sendPing_SendEq _ _).st]
+
+/-- firing any other timer leaves the closing-handshake timer armed, unless the connection got closed -/
+theorem fire_keeps_closeHs (s : S) (k : TK) (t : Nat × Nat) (h : s.tCloseHs = some t) (hk : k ≠ .closeHs) :
+    (fire s k).st = .closed ∨ (fire s k).tCloseHs = some t := by
+  cases k with
+  | closeHs => exact absurd rfl hk
+  | openHs =>
+    simp only [fire]; split
+    · left; exact dropConnection_st _ _
+    · right; exact h
+  | serverDrop =>
+    simp only [fire]; split
+    · left; exact dropConnection_st _ _
+    · right; exact h
+  | pingTimeout =>
+    simp only [fire]; split
+    · left; exact dropConnection_st _ _
+    · right; exact h
+  | pingNext => right; simp only [fire]; rw [sendAutoPing_tCloseHs]; exact h
+  | sendTick => right; simp only [fire]; rw [(sendTick_SendEq _).tCloseHs]; exact h
+
+theorem advanceTo_closeHs_inv (target : Nat) (t : Nat × Nat) :
+    ∀ (fuel : Nat) (s : S), (s.st = .closed ∨ s.tCloseHs = some t) →
+      ((advanceTo target fuel s).st = .closed ∨ (advanceTo target fuel s).tCloseHs = some t) := by
+  intro fuel
+  induction fuel with
+  | zero => intro s h; simpa [advanceTo] using h
+  | succ n ih =>
+    intro s h
+    unfold advanceTo
+    split
+    · rename_i k d q hn
+      split
+      · apply ih
+        rcases h with h | h
+        · exact Or.inl (fire_closed _ k (by simpa using h))
+        · by_cases hk : k = .closeHs
+          · subst hk
+            by_cases hc : s.st = .closed
+            · exact Or.inl (fire_closed _ _ (by simpa using hc))
+            · exact Or.inl (fire_closeHs_drops _ (by simpa using hc)).1
+          · exact fire_keeps_closeHs _ k t (by simpa using h) hk
+      · simpa using h
+    · simpa using h
+
+/-- **close_timeout_drops**: if the closing-handshake timer is armed for deadline `D`, the clock has been advanced
+to `target ≥ D` and every due timer has run, the connection is CLOSED (the peer's reply would have cleared the timer:
+`onCloseFrame_cancels_closeHs`). -/
+theorem close_timeout_drops (target fuel : Nat) (s : S) (D q : Nat)
+    (harmed : s.tCloseHs = some (D, q)) (hD : D ≤ target)
+    (hq : Quiescent target (advanceTo target fuel s)) :
+    (advanceTo target fuel s).st = .closed := by
+  rcases advanceTo_closeHs_inv target (D, q) fuel s (Or.inr harmed) with h | h
+  · exact h
+  · exfalso
+    have : (TK.closeHs, (D, q)) ∈ (advanceTo target fuel s).timers := by
+      simp [S.timers, h]
+    have := hq _ this
+    simp at this
+    omega
+
+/-- the peer's close reply cancels the closing-handshake timer -/
+theorem onCloseFrame_cancels_closeHs (s : S) (code : Option Nat) (reason : Option Bytes)
+    (hst : s.st = .closing) (hc : ∀ c, code = some c → closeCodeInvalid c = false)
+    (hr : ∀ r, reason = some r → utf8Valid r = true) :
+    (onCloseFrame s code reason).1.tCloseHs = none := by
+  unfold onCloseFrame
+  cases code with
+  | none =>
+    cases reason with
+    | none => simp [hst]; split <;> simp [dropConnection, S.emit, S.timer] <;> split <;> simp
+    | some r => simp [hr r rfl, hst]; split <;> simp [dropConnection, S.emit, S.timer] <;> split <;> simp
+  | some c =>
+    cases reason with
+    | none => simp [hc c rfl, hst]; split <;> simp [dropConnection, S.emit, S.timer] <;> split <;> simp
+    | some r => simp [hc c rfl, hr r rfl, hst]; split <;> simp [dropConnection, S.emit, S.timer] <;> split <;> simp
+
 end Abverif.Ws
